@@ -1,0 +1,347 @@
+//go:build verif
+
+// Verification hooks (build tag "verif"): read-only observation of a RawNode and thin exported
+// wrappers around unexported log operations. Nothing here is compiled without the tag and nothing
+// here changes the behaviour of the library.
+
+package raft
+
+import (
+	"fmt"
+	"slices"
+	"strings"
+
+	"go.etcd.io/raft/v3/quorum"
+	pb "go.etcd.io/raft/v3/raftpb"
+	"go.etcd.io/raft/v3/tracker"
+)
+
+// VerifFmtBytes renders an optional byte string: "-" when absent (nil), "x<hex>" otherwise.
+func VerifFmtBytes(b []byte) string {
+	if b == nil {
+		return "-"
+	}
+	return fmt.Sprintf("x%x", b)
+}
+
+// VerifFmtEntry renders term.index.type.data ("-" for an absent type).
+func VerifFmtEntry(e *pb.Entry) string {
+	ty := "-"
+	if e.Type != nil {
+		ty = fmt.Sprintf("%d", int32(e.GetType()))
+	}
+	return fmt.Sprintf("%d.%d.%s.%s", e.GetTerm(), e.GetIndex(), ty, VerifFmtBytes(e.Data))
+}
+
+func VerifFmtEntries(es []*pb.Entry) string {
+	var sb strings.Builder
+	sb.WriteByte('[')
+	for i, e := range es {
+		if i > 0 {
+			sb.WriteByte(',')
+		}
+		sb.WriteString(VerifFmtEntry(e))
+	}
+	sb.WriteByte(']')
+	return sb.String()
+}
+
+func verifIDs(ids []uint64) string {
+	var sb strings.Builder
+	for i, id := range ids {
+		if i > 0 {
+			sb.WriteByte(',')
+		}
+		fmt.Fprintf(&sb, "%d", id)
+	}
+	return sb.String()
+}
+
+func verifB(b bool) int {
+	if b {
+		return 1
+	}
+	return 0
+}
+
+// VerifFmtConfState renders the four id lists in their stored order plus AutoLeave.
+func VerifFmtConfState(cs *pb.ConfState) string {
+	return fmt.Sprintf("v=%s;o=%s;l=%s;n=%s;a=%d", verifIDs(cs.GetVoters()), verifIDs(cs.GetVotersOutgoing()),
+		verifIDs(cs.GetLearners()), verifIDs(cs.GetLearnersNext()), verifB(cs.GetAutoLeave()))
+}
+
+// VerifFmtSnapshot renders "-" for nil, else S(index.term.confstate.data).
+func VerifFmtSnapshot(s *pb.Snapshot) string {
+	if s == nil {
+		return "-"
+	}
+	return fmt.Sprintf("S(%d.%d.%s.%s)", s.GetMetadata().GetIndex(), s.GetMetadata().GetTerm(),
+		VerifFmtConfState(s.GetMetadata().GetConfState()), VerifFmtBytes(s.Data))
+}
+
+// VerifFmtMessage renders every field of a message (scalar fields by value, so an absent field and
+// a zero field look the same; optional-ness is kept for entries' type/data, snapshot, context).
+func VerifFmtMessage(m *pb.Message) string {
+	var sb strings.Builder
+	fmt.Fprintf(&sb, "M(%d %d %d %d %d %d %d %d %d %d %s %s %s [", int32(m.GetType()), m.GetFrom(), m.GetTo(),
+		m.GetTerm(), m.GetLogTerm(), m.GetIndex(), m.GetCommit(), m.GetVote(), verifB(m.GetReject()), m.GetRejectHint(),
+		VerifFmtEntries(m.GetEntries()), VerifFmtSnapshot(m.GetSnapshot()), VerifFmtBytes(m.Context))
+	for i, r := range m.GetResponses() {
+		if i > 0 {
+			sb.WriteByte(',')
+		}
+		sb.WriteString(VerifFmtMessage(r))
+	}
+	sb.WriteString("])")
+	return sb.String()
+}
+
+func VerifFmtMessages(ms []*pb.Message) string {
+	var sb strings.Builder
+	sb.WriteByte('[')
+	for i, m := range ms {
+		if i > 0 {
+			sb.WriteByte(',')
+		}
+		sb.WriteString(VerifFmtMessage(m))
+	}
+	sb.WriteByte(']')
+	return sb.String()
+}
+
+func VerifFmtHardState(hs *pb.HardState) string {
+	return fmt.Sprintf("%d.%d.%d", hs.GetTerm(), hs.GetVote(), hs.GetCommit())
+}
+
+// VerifFmtReady renders everything an application can see in a Ready.
+func VerifFmtReady(rd Ready) string {
+	ss := "-"
+	if rd.SoftState != nil {
+		ss = fmt.Sprintf("%d.%d", rd.SoftState.Lead, uint64(rd.SoftState.RaftState))
+	}
+	hs := "-"
+	if rd.HardState != nil {
+		hs = VerifFmtHardState(rd.HardState)
+	}
+	var rs strings.Builder
+	for i, r := range rd.ReadStates {
+		if i > 0 {
+			rs.WriteByte(',')
+		}
+		fmt.Fprintf(&rs, "%d.%s", r.Index, VerifFmtBytes(r.RequestCtx))
+	}
+	return fmt.Sprintf("R(ss=%s hs=%s rs=[%s] ents=%s snap=%s cents=%s msgs=%s sync=%d)", ss, hs, rs.String(),
+		VerifFmtEntries(rd.Entries), VerifFmtSnapshot(rd.Snapshot), VerifFmtEntries(rd.CommittedEntries),
+		VerifFmtMessages(rd.Messages), verifB(rd.MustSync))
+}
+
+func verifSet(m map[uint64]struct{}) string {
+	ids := make([]uint64, 0, len(m))
+	for id := range m {
+		ids = append(ids, id)
+	}
+	slices.Sort(ids)
+	return verifIDs(ids)
+}
+
+// VerifFmtStorage renders a MemoryStorage: hard state, snapshot, entries (the dummy first).
+func VerifFmtStorage(ms *MemoryStorage) string {
+	ms.Lock()
+	defer ms.Unlock()
+	hs := "-"
+	if ms.hardState != nil {
+		hs = VerifFmtHardState(ms.hardState)
+	}
+	return fmt.Sprintf("hs=%s snap=%s ents=%s", hs, VerifFmtSnapshot(ms.snapshot), VerifFmtEntries(ms.ents))
+}
+
+func verifFmtLog(l *raftLog) string {
+	u := &l.unstable
+	return fmt.Sprintf("c=%d ag=%d ad=%d aes=%d aep=%d max=%d uoff=%d uoip=%d usnap=%s usip=%d uents=%s",
+		l.committed, l.applying, l.applied, uint64(l.applyingEntsSize), verifB(l.applyingEntsPaused),
+		uint64(l.maxApplyingEntsSize), u.offset, u.offsetInProgress, VerifFmtSnapshot(u.snapshot),
+		verifB(u.snapshotInProgress), VerifFmtEntries(u.entries))
+}
+
+func verifFmtTracker(t *tracker.ProgressTracker) string {
+	var sb strings.Builder
+	o := "-"
+	if t.Voters[1] != nil {
+		o = "{" + verifSet(t.Voters[1]) + "}"
+	}
+	l := "-"
+	if t.Learners != nil {
+		l = "{" + verifSet(t.Learners) + "}"
+	}
+	n := "-"
+	if t.LearnersNext != nil {
+		n = "{" + verifSet(t.LearnersNext) + "}"
+	}
+	fmt.Fprintf(&sb, "cfg: v={%s} o=%s l=%s n=%s a=%d mi=%d mib=%d prs:", verifSet(t.Voters[0]), o, l, n,
+		verifB(t.AutoLeave), t.MaxInflight, t.MaxInflightBytes)
+	ids := make([]uint64, 0, len(t.Progress))
+	for id := range t.Progress {
+		ids = append(ids, id)
+	}
+	slices.Sort(ids)
+	for _, id := range ids {
+		pr := t.Progress[id]
+		fmt.Fprintf(&sb, " %d:%d.%d.%d.%d.%d.%d.%d.%d.%s", id, pr.Match, pr.Next, pr.VerifSentCommit(), uint64(pr.State),
+			pr.PendingSnapshot, verifB(pr.RecentActive), verifB(pr.MsgAppFlowPaused), verifB(pr.IsLearner),
+			pr.Inflights.VerifDump())
+	}
+	sb.WriteString(" votes:")
+	vids := make([]uint64, 0, len(t.Votes))
+	for id := range t.Votes {
+		vids = append(vids, id)
+	}
+	slices.Sort(vids)
+	for _, id := range vids {
+		fmt.Fprintf(&sb, " %d:%d", id, verifB(t.Votes[id]))
+	}
+	return sb.String()
+}
+
+func verifFmtReadOnly(ro *readOnly) string {
+	var sb strings.Builder
+	fmt.Fprintf(&sb, "ro: opt=%d conf=%d acks:", int(ro.option), ro.confirmedReads)
+	ids := make([]uint64, 0, len(ro.acks))
+	for id := range ro.acks {
+		ids = append(ids, id)
+	}
+	slices.Sort(ids)
+	for _, id := range ids {
+		fmt.Fprintf(&sb, " %d:%d", id, ro.acks[id])
+	}
+	sb.WriteString(" unc:[")
+	for i, rq := range ro.unconfirmedReads {
+		if i > 0 {
+			sb.WriteByte(',')
+		}
+		fmt.Fprintf(&sb, "%d@%s", rq.index, VerifFmtMessage(rq.req))
+	}
+	sb.WriteString("]")
+	return sb.String()
+}
+
+// VerifState returns a canonical, read-only dump of the whole node state (section 2.3 of
+// /verif/DESIGN.md). The Lean model prints the same text.
+func (rn *RawNode) VerifState() string {
+	r := rn.raft
+	var sb strings.Builder
+	fmt.Fprintf(&sb, "id=%d term=%d vote=%d lead=%d role=%d learner=%d xfer=%d pci=%d usz=%d ee=%d he=%d ret=%d",
+		r.id, r.Term, r.Vote, r.lead, uint64(r.state), verifB(r.isLearner), r.leadTransferee, r.pendingConfIndex,
+		uint64(r.uncommittedSize), r.electionElapsed, r.heartbeatElapsed, r.randomizedElectionTimeout)
+	fmt.Fprintf(&sb, " | log: %s", verifFmtLog(r.raftLog))
+	if ms, ok := r.raftLog.storage.(*MemoryStorage); ok {
+		fmt.Fprintf(&sb, " | sto: %s", VerifFmtStorage(ms))
+	}
+	fmt.Fprintf(&sb, " | %s | %s", verifFmtTracker(&r.trk), verifFmtReadOnly(r.readOnly))
+	fmt.Fprintf(&sb, " | pri=%s msgs=%s maa=%s rs=[", VerifFmtMessages(r.pendingReadIndexMessages),
+		VerifFmtMessages(r.msgs), VerifFmtMessages(r.msgsAfterAppend))
+	for i, rs := range r.readStates {
+		if i > 0 {
+			sb.WriteByte(',')
+		}
+		fmt.Fprintf(&sb, "%d.%s", rs.Index, VerifFmtBytes(rs.RequestCtx))
+	}
+	fmt.Fprintf(&sb, "] | raw: async=%d pss=%d.%d phs=%s soa=%s", verifB(rn.asyncStorageWrites), rn.prevSoftSt.Lead,
+		uint64(rn.prevSoftSt.RaftState), VerifFmtHardState(rn.prevHardSt), VerifFmtMessages(rn.stepsOnAdvance))
+	return sb.String()
+}
+
+// VerifLogicalLog returns (first index - 1, its term or 0, all entries of the logical log:
+// stable part below unstable.offset followed by the unstable entries).
+func (rn *RawNode) VerifLogicalLog() (base uint64, ents []*pb.Entry) {
+	l := rn.raft.raftLog
+	return l.firstIndex() - 1, l.allEntries()
+}
+
+// VerifLog wraps an unexported raftLog so that an external model-based driver can call it (C18).
+type VerifLog struct{ l *raftLog }
+
+func VerifNewLog(s Storage, maxApplyingEntsSize uint64) *VerifLog {
+	return &VerifLog{l: newLogWithSize(s, getLogger(), entryEncodingSize(maxApplyingEntsSize))}
+}
+
+func (v *VerifLog) Dump() string { return verifFmtLog(v.l) }
+
+func (v *VerifLog) MaybeAppend(term, prevIndex, prevTerm, committed uint64, ents []*pb.Entry) (uint64, bool) {
+	return v.l.maybeAppend(logSlice{term: term, prev: entryID{term: prevTerm, index: prevIndex}, entries: ents}, committed)
+}
+func (v *VerifLog) Append(ents []*pb.Entry) uint64       { return v.l.append(ents...) }
+func (v *VerifLog) FindConflict(ents []*pb.Entry) uint64 { return v.l.findConflict(ents) }
+func (v *VerifLog) FindConflictByTerm(i, t uint64) (uint64, uint64) {
+	return v.l.findConflictByTerm(i, t)
+}
+func (v *VerifLog) NextUnstableEnts() []*pb.Entry      { return v.l.nextUnstableEnts() }
+func (v *VerifLog) NextUnstableSnapshot() *pb.Snapshot { return v.l.nextUnstableSnapshot() }
+func (v *VerifLog) NextCommittedEnts(allowUnstable bool) []*pb.Entry {
+	return v.l.nextCommittedEnts(allowUnstable)
+}
+func (v *VerifLog) HasNextCommittedEnts(allowUnstable bool) bool {
+	return v.l.hasNextCommittedEnts(allowUnstable)
+}
+func (v *VerifLog) AcceptApplying(i, size uint64, allowUnstable bool) {
+	v.l.acceptApplying(i, entryEncodingSize(size), allowUnstable)
+}
+func (v *VerifLog) AppliedTo(i, size uint64)    { v.l.appliedTo(i, entryEncodingSize(size)) }
+func (v *VerifLog) AcceptUnstable()             { v.l.acceptUnstable() }
+func (v *VerifLog) StableTo(index, term uint64) { v.l.stableTo(entryID{term: term, index: index}) }
+func (v *VerifLog) StableSnapTo(i uint64)       { v.l.stableSnapTo(i) }
+func (v *VerifLog) Restore(s *pb.Snapshot)      { v.l.restore(s) }
+func (v *VerifLog) CommitTo(i uint64)           { v.l.commitTo(i) }
+func (v *VerifLog) MaybeCommit(index, term uint64) bool {
+	return v.l.maybeCommit(entryID{term: term, index: index})
+}
+func (v *VerifLog) Term(i uint64) (uint64, error) { return v.l.term(i) }
+func (v *VerifLog) Entries(i, maxSize uint64) ([]*pb.Entry, error) {
+	return v.l.entries(i, entryEncodingSize(maxSize))
+}
+func (v *VerifLog) Slice(lo, hi, maxSize uint64) ([]*pb.Entry, error) {
+	return v.l.slice(lo, hi, entryEncodingSize(maxSize))
+}
+func (v *VerifLog) FirstIndex() uint64              { return v.l.firstIndex() }
+func (v *VerifLog) LastIndex() uint64               { return v.l.lastIndex() }
+func (v *VerifLog) LastTerm() uint64                { return v.l.lastEntryID().term }
+func (v *VerifLog) Snapshot() (*pb.Snapshot, error) { return v.l.snapshot() }
+func (v *VerifLog) IsUpToDate(index, term uint64) bool {
+	return v.l.isUpToDate(entryID{term: term, index: index})
+}
+func (v *VerifLog) MatchTerm(index, term uint64) bool {
+	return v.l.matchTerm(entryID{term: term, index: index})
+}
+func (v *VerifLog) Committed() uint64 { return v.l.committed }
+func (v *VerifLog) Applying() uint64  { return v.l.applying }
+func (v *VerifLog) Applied() uint64   { return v.l.applied }
+
+func VerifEntsSize(ents []*pb.Entry) uint64     { return uint64(entsSize(ents)) }
+func VerifPayloadsSize(ents []*pb.Entry) uint64 { return uint64(payloadsSize(ents)) }
+func VerifLimitSize(ents []*pb.Entry, max uint64) []*pb.Entry {
+	return limitSize(ents, entryEncodingSize(max))
+}
+
+// VerifReadOnly wraps the unexported readOnly bookkeeping (C11 unit level).
+type VerifReadOnly struct{ ro *readOnly }
+
+func VerifNewReadOnly() *VerifReadOnly                           { return &VerifReadOnly{ro: newReadOnly(ReadOnlySafe)} }
+func (v *VerifReadOnly) AddRequest(commit uint64, m *pb.Message) { v.ro.addRequest(commit, m) }
+func (v *VerifReadOnly) RecvAck(from uint64, ctx []byte)         { v.ro.recvAck(from, ctx) }
+func (v *VerifReadOnly) HeartbeatCtx() []byte                    { return v.ro.heartbeatCtx() }
+func (v *VerifReadOnly) Dump() string                            { return verifFmtReadOnly(v.ro) }
+func (v *VerifReadOnly) MaybeAdvance(c0, c1 []uint64) (out []string) {
+	mk := func(ids []uint64) map[uint64]struct{} {
+		if ids == nil {
+			return nil
+		}
+		m := map[uint64]struct{}{}
+		for _, id := range ids {
+			m[id] = struct{}{}
+		}
+		return m
+	}
+	for _, rs := range v.ro.maybeAdvance(quorum.JointConfig{mk(c0), mk(c1)}) {
+		out = append(out, fmt.Sprintf("%d@%s", rs.index, VerifFmtMessage(rs.req)))
+	}
+	return out
+}
